@@ -601,6 +601,17 @@ class Exec:
             b_ = s.spec.builtins[ast.unparse(fn)]
             if getattr(b_, 'wants_call', False): return b_(s, st, e)
             return b_(s, st, [s.ev(st, a) for a in e.args])
+        if isinstance(fn, ast.Attribute) and isinstance(fn.value, ast.Call) and isinstance(fn.value.func, ast.Name) and fn.value.func.id == 'type' and len(fn.value.args) == 1:
+            o = s.ev(st, fn.value.args[0])      # type(x).m(...): a classmethod / static call on the (static) class of x
+            if o.ty.kind == 'ref' and o.ty.arg in s.p.classes:
+                c, m = s.p.method(o.ty.arg, fn.attr)
+                if m is not None and any(ast.unparse(d) in ('classmethod', 'staticmethod') for d in m.decorator_list):
+                    kw = {k.arg: s.ev(st, k.value) for k in e.keywords}
+                    r = s.call(st, m, [s.ev(st, a) for a in e.args], owner=c, cls_arg=o.ty.arg, kwargs=kw)
+                    tf = getattr(s, 'typ', None)
+                    if tf is not None and isinstance(r, SV) and r.ty.kind == 'ref' and ast.unparse(m.returns or ast.Constant(value=None)) in ('Self', "'Self'"): st.defs.append(tf(r.t) == tf(o.t))
+                    return r
+            raise Unsupported('type(x).method(...)')
         if isinstance(fn, ast.Call) and isinstance(fn.func, ast.Name) and fn.func.id == 'type' and len(fn.args) == 1:
             o = s.ev(st, fn.args[0])     # type(x)(...): classes under contract declare __init__ @final, so the static class decides
             if o.ty.kind == 'ref' and o.ty.arg in s.p.classes:
